@@ -17,6 +17,7 @@ type rho struct {
 	EOFWithLast bool   `json:"eof_with_last"` // (n>0, io.EOF) on the last chunk
 	ErrAt       int    `json:"err_at"`        // -1: none; else the reader fails after delivering ErrAt bytes
 	ErrWithData bool   `json:"err_with_data"` // the error accompanies the chunk that ends at ErrAt
+	ErrOnce     bool   `json:"err_once"`      // the error is reported once; later reads report io.EOF (else it is sticky)
 	Yield       bool   `json:"-"`             // call runtime.Gosched between chunks (concurrent phase)
 }
 
@@ -101,6 +102,10 @@ func (h *hreader) Read(p []byte) (int, error) {
 	h.zeroRun = 0
 	if h.pos >= h.limit {
 		h.done = h.terminal()
+		if h.r.ErrAt >= 0 && h.r.ErrOnce {
+			h.done = io.EOF
+			return 0, errInjected
+		}
 		return 0, h.done
 	}
 	max := h.limit - h.pos
@@ -114,7 +119,10 @@ func (h *hreader) Read(p []byte) (int, error) {
 	if h.pos == h.limit {
 		if h.r.ErrAt >= 0 && h.r.ErrWithData {
 			h.done = errInjected
-			return n, h.done
+			if h.r.ErrOnce {
+				h.done = io.EOF
+			}
+			return n, errInjected
 		}
 		if h.r.ErrAt < 0 && h.r.EOFWithLast {
 			h.done = io.EOF
